@@ -483,12 +483,13 @@ type objState struct {
 }
 
 type branchState struct {
-	name    string
-	chain   []ksuid.KSUID // tip first
-	log     []string      // per commit: author|message|meta|action kinds
-	objects []objState    // sorted by layout signature
-	content string        // digest of the multiset of all values of the branch
-	err     string
+	name      string
+	chain     []ksuid.KSUID // tip first
+	log       []string      // per commit: author|message|meta|set of action kinds
+	logCounts []string      // per commit: all actions (layout dependent)
+	objects   []objState    // sorted by layout signature
+	content   string        // digest of the multiset of all values of the branch
+	err       string
 }
 
 type poolState struct {
@@ -622,13 +623,23 @@ func (r *runner) inspectBranch(si int, engine storage.Engine, pool *lake.Pool, t
 		}
 		bs.chain = append(bs.chain, c.ID)
 		e := byCommit[c.ID]
-		line := "?"
+		line, counts := "?", "?"
 		if e != nil {
 			acts := append([]string(nil), e.acts...)
 			sort.Strings(acts)
-			line = e.head + "|" + strings.Join(acts, ",")
+			counts = strings.Join(acts, ",")
+			// the content comparison looks at which kinds of actions a commit has; how many adds/deletes a
+			// rewrite needs depends on how it partitions the values into objects (compared as layout)
+			var kinds []string
+			for i, a := range acts {
+				if i == 0 || acts[i-1] != a {
+					kinds = append(kinds, a)
+				}
+			}
+			line = e.head + "|" + strings.Join(kinds, ",")
 		}
 		bs.log = append(bs.log, line)
+		bs.logCounts = append(bs.logCounts, counts)
 	}
 	snap, err := pool.Snapshot(ctx, tip)
 	if err != nil {
@@ -778,6 +789,15 @@ func diffStatesNote(a, b *lakeState, note func(string)) (d stateDiff) {
 			}
 			if len(ba.objects) != len(bb.objects) {
 				d.layout = fmt.Sprintf("%s: same values, but direct has %d objects, served has %d", where, len(ba.objects), len(bb.objects))
+				continue
+			}
+			for k := range ba.logCounts {
+				if ba.logCounts[k] != bb.logCounts[k] {
+					d.layout = fmt.Sprintf("%s: commit %d from the tip has actions %s directly, %s served", where, k, ba.logCounts[k], bb.logCounts[k])
+					break
+				}
+			}
+			if d.layout != "" {
 				continue
 			}
 			for k := range ba.objects {
@@ -1118,6 +1138,7 @@ const (
 	sigCtrlNoMessage = "C19/late-error/control-response-without-error-message"
 	sigPlus          = "C19/names/plus-sign/path-param-query-unescaped"
 	sigEmptyPool     = "C19/create-pool/empty-name-accepted-by-service"
+	sigPanic200      = "C19/handler-panic/answered-200-empty-body"
 )
 
 // compareQuery runs one query on both sides (interface level) and the raw variants on the served side.
@@ -1125,14 +1146,15 @@ func (r *runner) compareQuery(step int, what string, head *lakeparse.Commitish, 
 	f := r.compareQueryOnce(step, what, head, text, ordered, raws, injected)
 	if f != nil && r.c.Parallel != 1 && strings.HasPrefix(f.Sig, "C19/query/") {
 		// With a parallelised scan some programs are not a function of the lake content (observed: `sort -r this |
-		// tail 2` under parallelism 2 picks different rows from run to run).  Such a mismatch says nothing about
-		// the service, so under parallelism != 1 a mismatch only counts when it is reproducible: the comparison is
-		// repeated and accepted as soon as one repetition agrees.  (Parallelism 1, the majority of cases, is strict.)
-		for i := 0; i < 5; i++ {
-			if r.compareQueryOnce(step, what, head, text, ordered, raws, injected) == nil {
-				r.o.Label("query:nondeterministic-under-parallelism")
-				return nil
-			}
+		// tail 2` under parallelism 2 picks different rows from run to run, with different odds in-process and
+		// behind the HTTP writer).  Such a mismatch says nothing about the service, so under parallelism != 1 a
+		// query mismatch only counts if it is also there with the scan forced to one thread.
+		saved := compiler.Parallelism
+		compiler.Parallelism = 1
+		f = r.compareQueryOnce(step, what, head, text, ordered, raws, injected)
+		compiler.Parallelism = saved
+		if f == nil {
+			r.o.Label("query:nondeterministic-under-parallelism")
 		}
 	}
 	return f
@@ -1862,20 +1884,35 @@ func (r *runner) load(step int, op Op, p *mpool, branch string, before [2]*lakeS
 	// direct: decode the same bytes with the same reader options the service uses and load the reader
 	var e0 error
 	var prefix []zed.Value
+	directPanic := false
 	{
 		zctx := zed.NewContext()
 		var rd io.Reader = bytes.NewReader(body)
 		if format == "auto" {
 			rd = onlyReader{rd} // the service sees a non-seekable request body
 		}
-		zr, err := anyio.NewReaderWithOpts(zctx, rd, demand.All(), anyio.ReaderOpts{Format: format, ZNG: zngio.ReaderOpts{Validate: true}})
-		if err != nil {
-			e0 = err
-		} else {
+		func() {
+			if op.Bad == "tail" {
+				// A decoder that panics on a deliberately malformed body is a robustness defect of that decoder
+				// (property C11's subject, e.g. vng.readMetadata on a truncated VNG object), not of the service:
+				// here it only counts as "direct access fails".
+				defer func() {
+					if rec := recover(); rec != nil {
+						e0 = fmt.Errorf("panic: %v", rec)
+						directPanic = true
+						r.o.Label("load:direct-decoder-panic:" + via)
+					}
+				}()
+			}
+			zr, err := anyio.NewReaderWithOpts(zctx, rd, demand.All(), anyio.ReaderOpts{Format: format, ZNG: zngio.ReaderOpts{Validate: true}})
+			if err != nil {
+				e0 = err
+				return
+			}
+			defer zr.Close()
 			_, e0 = r.sides[0].api.Load(ctx, zctx, p.id[0], branch, zr, msg)
-			zr.Close()
-		}
-		if e0 != nil && op.Bad == "tail" {
+		}()
+		if e0 != nil && op.Bad == "tail" && !directPanic {
 			// values readable before the failure (needed to re-synchronise if the service commits them)
 			pctx := zed.NewContext()
 			var prd io.Reader = bytes.NewReader(body)
@@ -1915,6 +1952,15 @@ func (r *runner) load(step int, op Op, p *mpool, branch string, before [2]*lakeS
 		if f := r.plusSign(step, "load", e1); f != nil || r.abandon != "" {
 			return f
 		}
+	}
+	if directPanic && e1 == nil && resp.Commit == ksuid.Nil {
+		// the same decoder panicked inside the service's handler: panicCatchMiddleware recovers it without writing a
+		// response, net/http then answers 200 with an empty body, and the client reads that as success
+		if !vt.IsKnown(sigPanic200) {
+			return fail(sigPanic200, "step %d: loading a malformed %s body panics in the decoder (%v); the service's handler panics too, but the request is answered 200 with an empty body, so the remote Load returns no error (commit id %s)", step, via, e0, resp.Commit)
+		}
+		r.o.Known = append(r.o.Known, sigPanic200)
+		return nil
 	}
 	if (e0 != nil) != (e1 != nil) {
 		if e0 != nil {
@@ -2255,6 +2301,14 @@ func literalCases() map[string]struct {
 		Op{Kind: "createpool", Key: "k"}, Op{Kind: "branch", Name: 3}, Op{Kind: "load", Via: "api", Branch: 1})
 	add("known-C19-empty-pool-name", sigEmptyPool, "known", 1,
 		Op{Kind: "createpool", Key: "k"}, Op{Kind: "createpool", Key: "k", Name: -1}, Op{Kind: "query", Query: "from :pools | cut name", Raws: all[2:4]})
+	add("known-C19-handler-panic-200", sigPanic200, "known", 1,
+		Op{Kind: "createpool", Key: "k"}, Op{Kind: "load", Via: "vng", Batch: 0, Bad: "tail", Cut: 6},
+		Op{Kind: "query", Query: "from {P}@{B} | count()", Ordered: true, Raws: all[:2]})
+	add("regress-parallel-sort-tail-nondeterminism", "", "", 2,
+		Op{Kind: "createpool", Key: "k", Desc: true, Stride: 16}, Op{Kind: "load", Via: "api", Batch: 1}, Op{Kind: "load", Via: "zng", Batch: 1},
+		Op{Kind: "query", Query: "from {P}@{B} | sort -r this | tail 2", Ordered: true, Raws: all[:6]},
+		Op{Kind: "query", Query: "from {P}@{B} | sort this | head 3", Ordered: true, Raws: all[:6]},
+		Op{Kind: "deletewhere", Pred: "v == 1"})
 	add("regress-history-merge-revert-vacuum", "", "", 0,
 		pool, Op{Kind: "load", Via: "api"}, Op{Kind: "branch"}, Op{Kind: "load", Via: "zng", Branch: 1, Batch: 2}, Op{Kind: "merge", Branch: 1, Other: 0},
 		Op{Kind: "delete", Pick: []int{0}}, Op{Kind: "revert", At: 0}, Op{Kind: "deletewhere", Pred: "k >= 2"}, Op{Kind: "compact", Pick: []int{0, 1}, Vectors: true},
